@@ -5,6 +5,7 @@ package gosym
 
 import (
 	"fmt"
+	"os"
 	"go/types"
 	"sort"
 	"strings"
@@ -158,6 +159,8 @@ type interpreter struct {
 	extraSolvers       []*Solver
 	asserts            []assertRec
 	timers             map[*value]*timerState
+	doms               map[*Term]*domain
+	fastDecisions      int
 }
 
 type assertRec struct {
@@ -199,11 +202,15 @@ func (i *interpreter) pushAlt(d Decision) {
 
 func (i *interpreter) assertPC(t *Term) {
 	i.pc = append(i.pc, t)
+	i.domAssert(t)
 	i.solver.Assert(t)
 }
 
 func (i *interpreter) check(t *Term, neg bool) Result {
 	i.queries++
+	if debugQueries && t != nil {
+		fmt.Fprintf(os.Stderr, "QUERY neg=%v fv=%d %s\n", neg, len(t.freeVars()), t.String())
+	}
 	r := i.solver.Check(t, neg)
 	if r == Unknown {
 		i.unknowns++
@@ -228,10 +235,16 @@ func (i *interpreter) branch(t *Term) bool {
 		i.assertPC(i.pool.Not(t))
 		return false
 	}
-	rt := i.check(t, false)
-	rf := i.check(t, true)
-	tFeas := rt != Unsat
-	fFeas := rf != Unsat
+	var tFeas, fFeas bool
+	if ct, cf, ok := i.domFeasible(t); ok {
+		tFeas, fFeas = ct, cf
+		i.fastDecisions++
+	} else {
+		rt := i.check(t, false)
+		rf := i.check(t, true)
+		tFeas = rt != Unsat
+		fFeas = rf != Unsat
+	}
 	switch {
 	case tFeas && fFeas:
 		i.pushAlt(Decision{Kind: 'b', Val: 0})
@@ -281,6 +294,45 @@ func (i *interpreter) concretize(s sv) value {
 	}
 	for _, e := range excl {
 		i.assertPC(p.Not(eqv(e)))
+	}
+	if fv := s.t.freeVars(); len(fv) == 1 {
+		if d := i.doms[fv[0]]; d != nil && !d.entangled {
+			// finite-domain fast path: the values the term takes over the remaining domain
+			var cands []uint64
+			okAll := true
+			for _, dv := range d.vals {
+				r, ok := s.t.eval(fv[0], dv)
+				if !ok {
+					okAll = false
+					break
+				}
+				dup := false
+				for _, c := range cands {
+					if c == r {
+						dup = true
+					}
+				}
+				if !dup {
+					cands = append(cands, r)
+				}
+			}
+			if okAll {
+				if len(cands) == 0 {
+					panic(pathEnd{&PathResult{Kind: "dropped", Msg: "no further value"}})
+				}
+				if len(excl)+len(cands) > i.cfg.ConcCap && len(cands) > 1 {
+					panic(budgetPanic{"concretize", fmt.Sprintf("more than %d values at a concretisation site", i.cfg.ConcCap)})
+				}
+				v := cands[0]
+				i.fastDecisions++
+				if len(cands) > 1 {
+					i.pushAlt(Decision{Kind: 'c', Excl: append(append([]uint64{}, excl...), v)})
+				}
+				i.record(Decision{Kind: 'c', Val: v})
+				i.assertPC(eqv(v))
+				return fromBits(s.k, v)
+			}
+		}
 	}
 	i.solver.define(s.t)
 	r := i.check(nil, false)
@@ -416,6 +468,7 @@ type ExploreStats struct {
 	Covers      map[string]int
 	Truncated   bool
 	SecondAgree int
+	FastDecisions int
 	SecondDis   int
 }
 
@@ -489,6 +542,7 @@ func (e *Explorer) account(res *PathResult, it *interpreter, s *Solver) {
 	st.Transitions += len(res.Trace)
 	st.Steps += res.Steps
 	st.Queries += it.queries
+	st.FastDecisions += it.fastDecisions
 	st.SecondDis += it.secondDisagree
 	st.SecondAgree += it.assertsChecked
 	for f, n := range it.funcs {
@@ -550,6 +604,7 @@ func runPath(prog *ssa.Program, cfg *Config, h *Harness, s *Solver, extra []*Sol
 		funcs:        map[*ssa.Function]int{},
 		poisoned:     map[*ssa.Global]string{},
 		extraSolvers: extra,
+		doms:         map[*Term]*domain{},
 	}
 	if rt := prog.ImportedPackage("runtime"); rt != nil {
 		i.runtimeErrorString = rt.Type("errorString").Object().Type()
@@ -592,6 +647,9 @@ func (i *interpreter) fillModel(res *PathResult) {
 	}
 	if len(i.pool.vars) == 0 && len(obsT) == 0 {
 		i.renderObserves(nil, nil)
+		return
+	}
+	if i.domModel(res, obsT) {
 		return
 	}
 	r := i.check(nil, false)
@@ -671,3 +729,54 @@ func renderObs(v value) string {
 	}
 	return fmt.Sprintf("<%T>", v)
 }
+
+// domModel builds the model without the solver when every variable still has
+// an independent finite domain (the path condition is then a conjunction of
+// single-variable constraints, satisfied by any remaining domain value).
+func (i *interpreter) domModel(res *PathResult, obsT []*Term) bool {
+	assign := map[*Term]uint64{}
+	for _, v := range i.pool.vars {
+		d := i.doms[v]
+		if d == nil || d.entangled {
+			if debugQueries {
+				fmt.Fprintf(os.Stderr, "DOMMODEL-FAIL var %s dom=%v\n", v.name, d)
+			}
+			return false
+		}
+		if len(d.vals) == 0 {
+			return false
+		}
+		assign[v] = d.vals[0]
+	}
+	vals := make([]uint64, len(obsT))
+	for k, t := range obsT {
+		fv := t.freeVars()
+		switch len(fv) {
+		case 0:
+			r, ok := t.eval(nil, 0)
+			if !ok {
+				return false
+			}
+			vals[k] = r
+		case 1:
+			r, ok := t.eval(fv[0], assign[fv[0]])
+			if !ok {
+				return false
+			}
+			vals[k] = r
+		default:
+			return false
+		}
+	}
+	m := make(map[string]string, len(assign))
+	for v, x := range assign {
+		name := strings.Trim(v.name, "|")
+		m[name] = fmt.Sprintf("%s:%d", types.Typ[i.varKinds[name]].Name(), x)
+	}
+	res.Model = m
+	i.renderObserves(obsT, vals)
+	i.fastDecisions++
+	return true
+}
+
+var debugQueries = os.Getenv("GOSYM_DEBUG_QUERIES") != ""
